@@ -7,7 +7,7 @@
    Objects: ints as atoms, doubles as (num den) or () for NA, strings as lists of character codes. *)
 From Coq Require Import Ascii String.
 From Coq Require Import List ZArith QArith Bool.
-From Gst Require Import lib.Sx C08.Codec C08.Model C08.Model_db C08.Model_vario C08.Model_model C08.Model_more.
+From Gst Require Import lib.Sx C08.Codec C08.Model C08.Model_db C08.Model_vario C08.Model_model C08.Model_more C08.Model_rest C08.Model_rule.
 Import ListNotations.
 Local Open Scope string_scope.
 Local Open Scope list_scope.
@@ -86,19 +86,20 @@ Definition dec_pe (s : sx) : option polyelem :=
   | _ => None
   end.
 
-Definition enc_hermite (o : anam_hermite) : sx :=
+Definition enc_hermite (od : anam_hermiteD) : sx :=
+  let o := ahd_core od in
   L [ofD (ah_azmin o); ofD (ah_azmax o); ofD (ah_aymin o); ofD (ah_aymax o);
      ofD (ah_pzmin o); ofD (ah_pzmax o); ofD (ah_pymin o); ofD (ah_pymax o);
-     ofD (ah_mean o); ofD (ah_variance o); ofD (ah_rcoef o); ofList ofD (ah_psi o)].
-Definition dec_hermite (s : sx) : option anam_hermite :=
+     ofD (ah_mean o); ofD (ah_variance o); ofD (ah_rcoef o); ofList ofD (ah_psi o); ofB (ahd_bound od)].
+Definition dec_hermite (s : sx) : option anam_hermiteD :=
   match s with
-  | L [a1; a2; a3; a4; p1; p2; p3; p4; m; v; r; psi] =>
+  | L [a1; a2; a3; a4; p1; p2; p3; p4; m; v; r; psi; fb] =>
       a1' <-? asD a1 ;; a2' <-? asD a2 ;; a3' <-? asD a3 ;; a4' <-? asD a4 ;;
       p1' <-? asD p1 ;; p2' <-? asD p2 ;; p3' <-? asD p3 ;; p4' <-? asD p4 ;;
-      m' <-? asD m ;; v' <-? asD v ;; r' <-? asD r ;; psi' <-? asListOf asD psi ;;
-      Some {| ah_azmin := a1'; ah_azmax := a2'; ah_aymin := a3'; ah_aymax := a4';
+      m' <-? asD m ;; v' <-? asD v ;; r' <-? asD r ;; psi' <-? asListOf asD psi ;; fb' <-? asB fb ;;
+      Some {| ahd_bound := fb'; ahd_core := {| ah_azmin := a1'; ah_azmax := a2'; ah_aymin := a3'; ah_aymax := a4';
               ah_pzmin := p1'; ah_pzmax := p2'; ah_pymin := p3'; ah_pymax := p4';
-              ah_mean := m'; ah_variance := v'; ah_rcoef := r'; ah_psi := psi' |}
+              ah_mean := m'; ah_variance := v'; ah_rcoef := r'; ah_psi := psi' |} |}
   | _ => None
   end.
 
@@ -135,26 +136,29 @@ Definition enc_triple (t : triple) : sx := let '(a, b, c) := t in L [ofD a; ofD 
 Definition dec_triple (s : sx) : option triple :=
   match s with L [a; b; c] => a' <-? asD a ;; b' <-? asD b ;; c' <-? asD c ;; Some (a', b', c') | _ => None end.
 Definition enc_vdir (d : vdir) : sx :=
-  L [ofB (vd_regular d); I (vd_npas d); I (vd_optcode d); ofD (vd_tolcode d); ofD (vd_dpas d); ofD (vd_toldist d);
-     ofList ofZ (vd_grincr d); ofD (vd_tolang d); ofList ofD (vd_codir d); ofList enc_triple (vd_res d)].
+  L [I (vd_npas d); I (vd_optcode d); ofD (vd_tolcode d); ofD (vd_dpas d); ofD (vd_toldist d);
+     ofList ofZ (vd_grincr d); ofD (vd_tolang d); ofList ofD (vd_codir d);
+     ofD (vd_bench d); ofD (vd_cylrad d); I (vd_idate d); ofList ofD (vd_breaks d); ofList enc_triple (vd_res d)].
 Definition dec_vdir (s : sx) : option vdir :=
   match s with
-  | L [rg; I npas; I oc; tc; dp; td; gi; ta; cd; rs] =>
-      rg' <-? asB rg ;; tc' <-? asD tc ;; dp' <-? asD dp ;; td' <-? asD td ;; gi' <-? asListOf asZ gi ;;
-      ta' <-? asD ta ;; cd' <-? asListOf asD cd ;; rs' <-? asListOf dec_triple rs ;;
-      Some {| vd_regular := rg'; vd_npas := npas; vd_optcode := oc; vd_tolcode := tc'; vd_dpas := dp'; vd_toldist := td';
-              vd_grincr := gi'; vd_tolang := ta'; vd_codir := cd'; vd_res := rs' |}
+  | L [I npas; I oc; tc; dp; td; gi; ta; cd; be; cy; I idt; br; rs] =>
+      tc' <-? asD tc ;; dp' <-? asD dp ;; td' <-? asD td ;; gi' <-? asListOf asZ gi ;;
+      ta' <-? asD ta ;; cd' <-? asListOf asD cd ;; be' <-? asD be ;; cy' <-? asD cy ;; br' <-? asListOf asD br ;;
+      rs' <-? asListOf dec_triple rs ;;
+      Some {| vd_npas := npas; vd_optcode := oc; vd_tolcode := tc'; vd_dpas := dp'; vd_toldist := td';
+              vd_grincr := gi'; vd_tolang := ta'; vd_codir := cd'; vd_bench := be'; vd_cylrad := cy'; vd_idate := idt;
+              vd_breaks := br'; vd_res := rs' |}
   | _ => None
   end.
 Definition enc_vario (o : vario) : sx :=
-  L [I (vr_ndim o); I (vr_nvar o); ofD (vr_scale o); I (vr_calcul o); ofList ofW (vr_names o);
+  L [I (vr_ndim o); I (vr_nvar o); ofD (vr_scale o); I (vr_calcul o); ofList ofD (vr_dates o); ofList ofW (vr_names o);
      ofList (ofList ofD) (vr_vars o); ofList enc_vdir (vr_dirs o)].
 Definition dec_vario (s : sx) : option vario :=
   match s with
-  | L [I nd; I nv; sc; I cal; names; vars; dirs] =>
-      sc' <-? asD sc ;; names' <-? asListOf asW names ;; vars' <-? asListOf (asListOf asD) vars ;;
+  | L [I nd; I nv; sc; I cal; dates; names; vars; dirs] =>
+      sc' <-? asD sc ;; dates' <-? asListOf asD dates ;; names' <-? asListOf asW names ;; vars' <-? asListOf (asListOf asD) vars ;;
       dirs' <-? asListOf dec_vdir dirs ;;
-      Some {| vr_ndim := nd; vr_nvar := nv; vr_scale := sc'; vr_calcul := cal; vr_names := names'; vr_vars := vars'; vr_dirs := dirs' |}
+      Some {| vr_ndim := nd; vr_nvar := nv; vr_scale := sc'; vr_calcul := cal; vr_dates := dates'; vr_names := names'; vr_vars := vars'; vr_dirs := dirs' |}
   | _ => None
   end.
 
@@ -209,6 +213,130 @@ Definition dec_turbo (s : sx) : option mesh_turbo :=
               mt_mesh_mask := mm'; mt_grid_mask := gm' |}
   | _ => None
   end.
+
+(* NeighImage, Faults, FracEnviron, MeshEStandard, AnamDiscreteIR/DD, DbLine, DbGraphO *)
+Definition enc_image (o : neigh_image) : sx := L [enc_aneigh (ni_base o); I (ni_skip o); ofList ofZ (ni_radius o)].
+Definition dec_image (s : sx) : option neigh_image :=
+  match s with
+  | L [a; I sk; r] => a' <-? dec_aneigh a ;; r' <-? asListOf asZ r ;; Some {| ni_base := a'; ni_skip := sk; ni_radius := r' |}
+  | _ => None
+  end.
+Definition enc_family (f : frac_family) : sx :=
+  L [ofD (ff_orient f); ofD (ff_dorient f); ofD (ff_theta0 f); ofD (ff_alpha f); ofD (ff_ratcst f);
+     ofD (ff_prop1 f); ofD (ff_prop2 f); ofD (ff_aterm f); ofD (ff_bterm f); ofD (ff_range f)].
+Definition dec_family (s : sx) : option frac_family :=
+  match s with
+  | L [a; b; c; d; e; f; g; h; i; j] =>
+      a' <-? asD a ;; b' <-? asD b ;; c' <-? asD c ;; d' <-? asD d ;; e' <-? asD e ;;
+      f' <-? asD f ;; g' <-? asD g ;; h' <-? asD h ;; i' <-? asD i ;; j' <-? asD j ;;
+      Some {| ff_orient := a'; ff_dorient := b'; ff_theta0 := c'; ff_alpha := d'; ff_ratcst := e';
+              ff_prop1 := f'; ff_prop2 := g'; ff_aterm := h'; ff_bterm := i'; ff_range := j' |}
+  | _ => None
+  end.
+Definition enc_ffault (f : frac_fault) : sx :=
+  L [ofD (fl_coord f); ofD (fl_orient f); ofList ofD (fl_thetal f); ofList ofD (fl_thetar f); ofList ofD (fl_rangel f); ofList ofD (fl_ranger f)].
+Definition dec_ffault (s : sx) : option frac_fault :=
+  match s with
+  | L [c; o; a; b; d; e] =>
+      c' <-? asD c ;; o' <-? asD o ;; a' <-? asListOf asD a ;; b' <-? asListOf asD b ;; d' <-? asListOf asD d ;; e' <-? asListOf asD e ;;
+      Some {| fl_coord := c'; fl_orient := o'; fl_thetal := a'; fl_thetar := b'; fl_rangel := d'; fl_ranger := e' |}
+  | _ => None
+  end.
+Definition enc_frac (o : frac_environ) : sx :=
+  L [ofD (fe_xmax o); ofD (fe_ymax o); ofD (fe_deltax o); ofD (fe_deltay o); ofD (fe_mean o); ofD (fe_stdev o);
+     ofList enc_family (fe_families o); ofList enc_ffault (fe_faults o)].
+Definition dec_frac (s : sx) : option frac_environ :=
+  match s with
+  | L [a; b; c; d; e; f; fa; fl] =>
+      a' <-? asD a ;; b' <-? asD b ;; c' <-? asD c ;; d' <-? asD d ;; e' <-? asD e ;; f' <-? asD f ;;
+      fa' <-? asListOf dec_family fa ;; fl' <-? asListOf dec_ffault fl ;;
+      Some {| fe_xmax := a'; fe_ymax := b'; fe_deltax := c'; fe_deltay := d'; fe_mean := e'; fe_stdev := f';
+              fe_families := fa'; fe_faults := fl' |}
+  | _ => None
+  end.
+Definition enc_meshstd (o : mesh_std) : sx :=
+  L [I (ms_ndim o); I (ms_napices o); I (ms_npm o); I (ms_nmeshes o); ofList ofD (ms_apices o); ofList ofZ (ms_meshes o)].
+Definition dec_meshstd (s : sx) : option mesh_std :=
+  match s with
+  | L [I nd; I na; I np; I nm; ap; me] =>
+      ap' <-? asListOf asD ap ;; me' <-? asListOf asZ me ;;
+      Some {| ms_ndim := nd; ms_napices := na; ms_npm := np; ms_nmeshes := nm; ms_apices := ap'; ms_meshes := me' |}
+  | _ => None
+  end.
+Definition enc_adisc (o : adisc) : list sx := [ofList ofD (ad_zcut o); I (ad_nelem o); ofList ofD (ad_stats o)].
+Definition dec_adisc (z ne st : sx) : option adisc :=
+  z' <-? asListOf asD z ;; ne' <-? asZ ne ;; st' <-? asListOf asD st ;; Some {| ad_zcut := z'; ad_nelem := ne'; ad_stats := st' |}.
+Definition enc_ir (o : anam_ir) : sx := L (enc_adisc (ir_disc o) ++ [ofD (ir_rcoef o)]).
+Definition dec_ir (s : sx) : option anam_ir :=
+  match s with
+  | L [z; ne; st; r] => d <-? dec_adisc z ne st ;; r' <-? asD r ;; Some {| ir_disc := d; ir_rcoef := r' |}
+  | _ => None
+  end.
+Definition enc_dd (o : anam_dd) : sx :=
+  L (enc_adisc (dd_disc o) ++ [ofD (dd_scoef o); ofD (dd_mu o); ofList ofD (dd_z2f o); ofList ofD (dd_f2z o)]).
+Definition dec_dd (s : sx) : option anam_dd :=
+  match s with
+  | L [z; ne; st; sc; mu; a; b] =>
+      d <-? dec_adisc z ne st ;; sc' <-? asD sc ;; mu' <-? asD mu ;; a' <-? asListOf asD a ;; b' <-? asListOf asD b ;;
+      Some {| dd_disc := d; dd_scoef := sc'; dd_mu := mu'; dd_z2f := a'; dd_f2z := b' |}
+  | _ => None
+  end.
+Definition enc_dbline (o : dbline) : sx := L [ofList (ofList ofZ) (dl_lines o); enc_db (dl_db o)].
+Definition dec_dbline (s : sx) : option dbline :=
+  match s with
+  | L [ls; d] => ls' <-? asListOf (asListOf asZ) ls ;; d' <-? dec_db d ;; Some {| dl_lines := ls'; dl_db := d' |}
+  | _ => None
+  end.
+Definition enc_arc (a : arc) : sx := L [I (fst (fst a)); I (snd (fst a)); ofD (snd a)].
+Definition dec_arc (s : sx) : option arc :=
+  match s with L [I r; I c; v] => v' <-? asD v ;; Some (r, c, v') | _ => None end.
+Definition enc_dbgraph (o : dbgraph) : sx := L [ofList enc_arc (go_arcs o); enc_db (go_db o)].
+Definition dec_dbgraph (s : sx) : option dbgraph :=
+  match s with
+  | L [a; d] => a' <-? asListOf dec_arc a ;; d' <-? dec_db d ;; Some {| go_arcs := a'; go_db := d' |}
+  | _ => None
+  end.
+
+(* Rule, RuleShift, RuleShadow: the tree as the list of its nodes (type, facies) in prefix order *)
+Fixpoint flat_node (n : rnode) : list sx :=
+  match n with
+  | RFac f => [L [I 0; I f]]
+  | RThr o l r => L [I o; I 0] :: flat_node l ++ flat_node r
+  end.
+Fixpoint parse_pre (fuel : nat) (l : list sx) : option (rnode * list sx) :=
+  match fuel with
+  | O => None
+  | S k =>
+      match l with
+      | L [I o; I f] :: rest =>
+          if o =? 0 then Some (RFac f, rest)
+          else match parse_pre k rest with
+               | Some (a, r1) => match parse_pre k r1 with Some (b, r2) => Some (RThr o a b, r2) | None => None end
+               | None => None
+               end
+      | _ => None
+      end
+  end.
+Definition dec_node (s : sx) : option rnode :=
+  match s with
+  | L l => match parse_pre (S (length l)) l with Some (n, []) => Some n | _ => None end
+  | _ => None
+  end.
+Definition enc_rule (o : rule) : sx := L [I (ru_mode o); ofD (ru_rho o); L (flat_node (ru_main o))].
+Definition dec_rule (s : sx) : option rule :=
+  match s with
+  | L [I m; rho; t] => rho' <-? asD rho ;; t' <-? dec_node t ;; Some {| ru_mode := m; ru_rho := rho'; ru_main := t' |}
+  | _ => None
+  end.
+Definition enc_rshift (o : rule_shift) : sx :=
+  L [enc_rule (rs_rule o); ofD (rs_slope o); ofD (rs_shdown o); ofD (rs_shdsup o); ofList ofD (rs_shift o)].
+Definition dec_rshift (s : sx) : option rule_shift :=
+  match s with
+  | L [r; a; b; c; sh] =>
+      r' <-? dec_rule r ;; a' <-? asD a ;; b' <-? asD b ;; c' <-? asD c ;; sh' <-? asListOf asD sh ;;
+      Some {| rs_rule := r'; rs_slope := a'; rs_shdown := b'; rs_shdsup := c'; rs_shift := sh' |}
+  | _ => None
+  end.
 (* oracle table ((type hasRange hasParam) ...) *)
 Definition table_lookup (tbl : list (Z * bool * bool)) (sel : Z * bool * bool -> bool) (t : Z) : bool :=
   match find (fun e => fst (fst e) =? t) tbl with Some e => sel e | None => false end.
@@ -220,27 +348,40 @@ Record cls := {
   c_T : Type; c_tag : string; c_ser : c_T -> list record; c_deser : reader c_T;
   c_enc : c_T -> sx; c_dec : sx -> option c_T }.
 
+(* the formats are those of the library as it is: trailing records written and read (boolean arguments true) *)
 Definition classes (id : Z) (aux : sx) : option cls :=
+  let b0 := true in let b1 := true in
   match id with
-  | 1 => Some {| c_tag := "NeighUnique"; c_ser := ser_NeighUnique; c_deser := deser_NeighUnique; c_enc := enc_aneigh; c_dec := dec_aneigh |}
-  | 2 => Some {| c_tag := "NeighBench"; c_ser := ser_NeighBench; c_deser := deser_NeighBench; c_enc := enc_bench; c_dec := dec_bench |}
-  | 3 => Some {| c_tag := "NeighCell"; c_ser := ser_NeighCell; c_deser := deser_NeighCell; c_enc := enc_cell; c_dec := dec_cell |}
-  | 4 => Some {| c_tag := "NeighMoving"; c_ser := ser_NeighMoving; c_deser := deser_NeighMoving; c_enc := enc_moving; c_dec := dec_moving |}
+  | 1 => Some {| c_tag := "NeighUnique"; c_ser := ser_NeighUniqueD b0; c_deser := deser_NeighUniqueD b0; c_enc := enc_aneigh; c_dec := dec_aneigh |}
+  | 2 => Some {| c_tag := "NeighBench"; c_ser := ser_NeighBenchD b0; c_deser := deser_NeighBenchD b0; c_enc := enc_bench; c_dec := dec_bench |}
+  | 3 => Some {| c_tag := "NeighCell"; c_ser := ser_NeighCellD b0; c_deser := deser_NeighCellD b0; c_enc := enc_cell; c_dec := dec_cell |}
+  | 4 => Some {| c_tag := "NeighMoving"; c_ser := ser_NeighMovingD b0; c_deser := deser_NeighMovingD b0; c_enc := enc_moving; c_dec := dec_moving |}
   | 5 => Some {| c_tag := "Table"; c_ser := ser_Table; c_deser := deser_Table; c_enc := enc_table; c_dec := dec_table |}
   | 6 => Some {| c_tag := "PolyLine2D"; c_ser := ser_PolyLine2D; c_deser := deser_PolyLine2D; c_enc := ofList enc_pt; c_dec := asListOf dec_pt |}
   | 7 => Some {| c_tag := "PolyElem"; c_ser := ser_PolyElem; c_deser := deser_PolyElem; c_enc := enc_pe; c_dec := dec_pe |}
   | 8 => Some {| c_tag := "Polygon"; c_ser := ser_Polygons; c_deser := deser_Polygons; c_enc := ofList enc_pe; c_dec := asListOf dec_pe |}
-  | 9 => Some {| c_tag := "AnamHermite"; c_ser := ser_AnamHermite; c_deser := deser_AnamHermite; c_enc := enc_hermite; c_dec := dec_hermite |}
+  | 9 => Some {| c_tag := "AnamHermite"; c_ser := ser_AnamHermiteD b1; c_deser := deser_AnamHermiteD b0 b1; c_enc := enc_hermite; c_dec := dec_hermite |}
   | 10 => Some {| c_tag := "Db"; c_ser := ser_Db; c_deser := deser_Db; c_enc := enc_db; c_dec := dec_db |}
   | 11 => Some {| c_tag := "DbGrid"; c_ser := ser_DbGrid; c_deser := deser_DbGrid; c_enc := enc_dbgrid; c_dec := dec_dbgrid |}
-  | 12 => Some {| c_tag := "Vario"; c_ser := ser_Vario; c_deser := deser_Vario; c_enc := enc_vario; c_dec := dec_vario |}
-  | 22 => Some {| c_tag := "AnamEmpirical"; c_ser := ser_AnamEmpirical; c_deser := deser_AnamEmpirical; c_enc := enc_empirical; c_dec := dec_empirical |}
+  | 12 => Some {| c_tag := "Vario"; c_ser := ser_Vario b0; c_deser := deser_Vario b0; c_enc := enc_vario; c_dec := dec_vario |}
+  | 22 => Some {| c_tag := "AnamEmpirical"; c_ser := ser_AnamEmpirical b0; c_deser := deser_AnamEmpirical b0; c_enc := enc_empirical; c_dec := dec_empirical |}
   | 25 => Some {| c_tag := "MeshETurbo"; c_ser := ser_MeshETurbo; c_deser := deser_MeshETurbo; c_enc := enc_turbo; c_dec := dec_turbo |}
+  | 20 => Some {| c_tag := "DbLine"; c_ser := ser_DbLine; c_deser := deser_DbLine; c_enc := enc_dbline; c_dec := dec_dbline |}
+  | 21 => Some {| c_tag := "DbGraphO"; c_ser := ser_DbGraphO; c_deser := deser_DbGraphO; c_enc := enc_dbgraph; c_dec := dec_dbgraph |}
+  | 23 => Some {| c_tag := "AnamDiscreteDD"; c_ser := ser_AnamDiscreteDD; c_deser := deser_AnamDiscreteDD; c_enc := enc_dd; c_dec := dec_dd |}
+  | 24 => Some {| c_tag := "AnamDiscreteIR"; c_ser := ser_AnamDiscreteIR; c_deser := deser_AnamDiscreteIR; c_enc := enc_ir; c_dec := dec_ir |}
+  | 26 => Some {| c_tag := "MeshEStandard"; c_ser := ser_MeshEStandard; c_deser := deser_MeshEStandard; c_enc := enc_meshstd; c_dec := dec_meshstd |}
+  | 27 => Some {| c_tag := "Rule"; c_ser := ser_Rule; c_deser := deser_Rule b0; c_enc := enc_rule; c_dec := dec_rule |}
+  | 28 => Some {| c_tag := "RuleShift"; c_ser := ser_RuleShift b0; c_deser := deser_RuleShift b1 b0; c_enc := enc_rshift; c_dec := dec_rshift |}
+  | 29 => Some {| c_tag := "RuleShadow"; c_ser := ser_RuleShadow b0; c_deser := deser_RuleShift b1 b0; c_enc := enc_rshift; c_dec := dec_rshift |}
+  | 30 => Some {| c_tag := "Faults"; c_ser := ser_Faults; c_deser := deser_Faults; c_enc := ofList (ofList enc_pt); c_dec := asListOf (asListOf dec_pt) |}
+  | 31 => Some {| c_tag := "Fracture Environ"; c_ser := ser_FracEnviron; c_deser := deser_FracEnviron; c_enc := enc_frac; c_dec := dec_frac |}
+  | 32 => Some {| c_tag := "NeighImage"; c_ser := ser_NeighImage b0; c_deser := deser_NeighImage b0; c_enc := enc_image; c_dec := dec_image |}
   | 13 => match dec_table3 aux with
           | Some tbl =>
               let hr := table_lookup tbl (fun e => snd (fst e)) in
               let hp := table_lookup tbl (fun e => snd e) in
-              Some {| c_tag := "Model"; c_ser := ser_Model; c_deser := deser_Model hr hp; c_enc := enc_model; c_dec := dec_model |}
+              Some {| c_tag := "Model"; c_ser := ser_Model b0; c_deser := deser_Model hr hp b0; c_enc := enc_model; c_dec := dec_model |}
           | None => None
           end
   | _ => None
